@@ -1044,6 +1044,12 @@ def parse_tree_to_objgraph(
                 _restore_user_classes(models)
                 raise
 
+        if is_immutable_obj:
+            # A model of an immutable type (e.g. a number or a string) can not
+            # carry the end of its construction: restore the user classes now.
+            parser._restore_user_attr_methods()
+            parser._discard_user_obj_attrs()
+
         if metamodel.textx_tools_support and type(model) not in PRIMITIVE_PYTHON_TYPES:
             # Cross-references for go-to definition language server support
             # Already sorted based on ref_pos_start attr
